@@ -65,8 +65,8 @@ TEMPLATES = {
     "dsl_inherited": ("mn: int", [], '_child(mn)', DV, DPRE1),
     "declared_matches_pattern": ("mn: int", [], 'parse_s({"properties": {"a": {"minimum": mn}, "ab": {"type": "integer", "default": 1}}, "patternProperties": {"^a": {"maximum": mn}, "b$": {"multipleOf": 2}}, "required": ["ab"]})', DV, DPRE1),
     "declared_matches_pattern_typed": ("mn: int", [], 'parse_s({"type": "object", "title": "PM", "properties": {"a": {"minimum": mn}, "a b": {"type": "integer"}}, "patternProperties": {"^a": {"maximum": mn}}})', DV, DPRE1),
-    "nested_bool_literals": ("m: int", [], 'parse_s({"anyOf": [{"const": {"flags": [True, m], "deep": {"x": [[False]]}}}, {"enum": [[[True]], {"k": {"j": False}}, m]}], "properties": {"a": {"const": [[True, 1]]}}})', "Union[int, Dict[str, int], List[List[Union[int, bool]]]]", "(not isinstance({0}, dict) or (len({0}) <= 1 and all(k in ('a', 'b') for k in {0}))) and (not isinstance({0}, list) or (len({0}) <= 2 and all(len(x) <= 2 for x in {0})))"),
-    "unique_nested_data": ("m: int", [], 'parse_s({"uniqueItems": True, "items": {"enum": [[True], [False, m], [[True]], [m]]}})', "List[List[Union[int, bool]]]", "len({0}) <= 2 and all(len(x) <= 2 for x in {0})"),
+    "nested_bool_literals": ("m: int", [], 'parse_s({"anyOf": [{"const": {"flags": [True, m], "deep": {"x": [[False]]}}}, {"enum": [[[True]], {"k": {"j": False}}, m]}], "properties": {"a": {"const": [[True, 1]]}}})', "Union[int, Dict[str, int], List[List[Union[int, bool]]]]", "(not isinstance({0}, dict) or (len({0}) <= 1 and all(k in ('a', 'b') for k in {0}))) and (not isinstance({0}, list) or (len({0}) <= 1 and all(len(x) <= 2 for x in {0})))"),
+    "unique_nested_data": ("m: int", [], 'parse_s({"uniqueItems": True, "items": {"enum": [[True], [False, m], [[True]], [m]]}})', "List[List[Union[int, bool]]]", "len({0}) <= 2 and all(len(x) <= 1 for x in {0})"),
     "declared_allof_matches_pattern": ("mn: int", [], 'parse_s({"properties": {"ab": {"allOf": [{"minimum": mn}, {"type": "integer"}]}, "a": {"anyOf": [{"maximum": mn}, {"type": "null"}]}}, "patternProperties": {"^a": {"multipleOf": 2}}})', DV, DPRE1),
     "pattern_deps": ("mn: int", [], 'parse_s({"patternProperties": {"^a": {"maximum": mn}}, "dependencies": {"a": ["b"], "b": {"minProperties": 2}}, "propertyNames": {"maxLength": 2}})', DV, DPRE1),
     "tuple_items": ("m: int", [], 'parse_s({"type": "array", "items": [{"type": "integer"}, {"minimum": m}], "additionalItems": {"type": "boolean"}, "uniqueItems": True})', LV, "len({0}) <= 3"),
@@ -107,7 +107,7 @@ def make():
 return pure_history(make, [{vals}])
 """
             hs.append(mk(f"c08_{name}_k{k}", f"{hargs}, {vargs}", pre, body, tier="quick" if k == 1 else "thorough",
-                         timeout=120 if k == 1 else 400, group="history", covers=f"{make} ; history of {k} symbolic values, each validated twice"))
+                         timeout=300 if k == 1 else 400, group="history", covers=f"{make} ; history of {k} symbolic values, each validated twice"))
         # reachability twin: an accepted call exists
         body = f"""
 def make():
@@ -123,7 +123,7 @@ def make():
 return pure_history(make, [v1], True)
 """
         hs.append(mk(f"c08_{name}_text", f"v1: {vt}", [vpre.format("v1")], body,
-                     tier="quick", timeout=90, group="text", covers="repr/serialize_python unchanged; holes concrete (=2)"))
+                     tier="quick", timeout=300, group="text", covers="repr/serialize_python unchanged; holes concrete (=2)"))
     return hs
 
 
